@@ -287,7 +287,21 @@ def rule_used(R):
          "the space needed after compaction is the sum of the entries' lengths", where=uac.span)
 
 
+def rule_arena_order(R):
+    from .c02 import clause_order
+    clause_order(R, "compact/entries-in-arena-order", ("retained",),
+                 " -- compact() slides entries down in list order with copy_within, which is only correct while the list is in "
+                 "ascending arena-offset order (append at the end, order-preserving removal)")
+
+
+def rule_slots(R):
+    from .c06 import clause_quota_after_enqueue
+    clause_quota_after_enqueue(R, "slots/quota-after-enqueue")
+
+
 def run(R):
+    R.rule("slots", rule_slots)
+    R.rule("arena-order", rule_arena_order)
     R.rule("base", rule_base)
     R.rule("writers", rule_writers)
     R.rule("patch", rule_patch)
